@@ -128,7 +128,9 @@ Proof.
     - apply Rmult_lt_0_compat; [assumption|]. cbn [pow]. rewrite Rmult_1_r.
       destruct (Rtotal_order (h_pl U) 0) as [Hn|[Hz|Hp]]; [nra|contradiction|nra]. }
   apply lder_ext with (f := fun t => Rpower (c * t) (3 / 2)).
-  - intros t. unfold translational_Z. rnum. f_equal. unfold c. field. split; [assumption | lra].
+  - (* through the C07 statement "kernel = documented formula", so that this proof does not depend on how the source spells it *)
+    intros t. rewrite (translational_Z_eq_spec U s t (Rgt_not_eq _ _ HNa) Hh). unfold Ztr_spec. f_equal. unfold c. field.
+    split; [lra | exact Hh].
   - apply lder_Rpower_32; assumption.
 Qed.
 
